@@ -35,6 +35,24 @@ def run (op : String) : P String :=
   | "diff" => do
     let o ← pOpts; let a ← pNode; let b ← pNode
     pure (encDiff (diffM o a b))
+  | "readdiffclass" => do
+    let nc ← pNumDict; let t ← pText
+    pure (match readDiffM nc t with | .ok _ => "ok" | .err => "err" | .panic => "panic")
+  | "readpatchclass" => do
+    let nc ← pNumDict; let t ← pText
+    pure (match readPatchM nc t with | .ok _ => "ok" | .err => "err" | .panic => "panic")
+  | "readmergeclass" => do
+    let nc ← pNumDict; let t ← pText
+    pure (match readMergeM nc t with | .ok _ => "ok" | .err => "err" | .panic => "panic")
+  | "readjsonclass" => do
+    let nc ← pNumDict; let t ← pText
+    pure (match readJsonM nc t with | .ok _ => "ok" | .err => "err" | .panic => "panic")
+  | "diffempty" => do
+    let o ← pOpts; let a ← pNode; let b ← pNode
+    pure (encBool (diffM o a b).isEmpty)
+  | "patchpanics" => do
+    let n ← pNode; let d ← pDiff
+    pure (match patchAll true n d with | .panic => "panic" | _ => "nopanic")
   | "patch" => do
     let n ← pNode; let d ← pDiff
     pure (encPatchOutcome n d)
@@ -103,6 +121,18 @@ def run (op : String) : P String :=
     let nc ← pNumDict; let d ← pDiff
     pure (match renderMergeM nc d with
       | .ok t => encOptText t
+      | .err => "err"
+      | .panic => "panic")
+  | "readmergesorted" => do
+    let nc ← pNumDict; let t ← pText
+    pure (match readMergeM nc t with
+      | .ok d =>
+        let hs := (d.map encHunk).foldr (fun h acc =>
+          let rec ins (h : String) : List String → List String
+            | [] => [h]
+            | x :: r => if h < x then h :: x :: r else x :: ins h r
+          ins h acc) []
+        "ok <" ++ String.join (hs.map (fun h => " " ++ h)) ++ " >"
       | .err => "err"
       | .panic => "panic")
   | "readmerge" => do
